@@ -325,6 +325,42 @@ class DropLast(nn.Module):
         return self.inner(x[..., : x.size(-1) - self.h])
 
 
+class PassThrough(nn.Module):
+    """Returns its first `h` input columns as they are (a view of the input, no new tensor): whatever the hedger does to the
+    model's output in place is done to the input the features handed over."""
+
+    def __init__(self, h):
+        super().__init__()
+        self.h = h
+
+    def forward(self, x):
+        return x[..., : self.h]
+
+
+class BandNet(nn.Module):
+    """No-transaction band in the style of pfhedge's README example: the previous hedge (last input column) is clamped into a
+    band whose two bounds are trainable functions of the other inputs.  `mode` picks which of pfhedge's clamps does it."""
+
+    def __init__(self, fin, mode):
+        super().__init__()
+        self.lin = nn.Linear(fin - 1, 2)
+        self.mode = mode
+        self.leaky = pfn.LeakyClamp(0.1)
+        self.hard = pfn.Clamp()
+
+    def forward(self, x):
+        prev = x[..., -1:]
+        z = self.lin(x[..., :-1])
+        centre = torch.tanh(z[..., :1])
+        half = nn.functional.softplus(z[..., 1:2]) * 0.3
+        lo, hi = centre - half, centre + 0.5 * half
+        if self.mode == "module":
+            return self.hard(prev, lo, hi)
+        if self.mode == "leaky":
+            return self.leaky(prev, lo, hi)
+        return pfn.functional.clamp(prev, lo, hi, inverted_output=self.mode)
+
+
 def build_model(spec, world):
     kind = spec["kind"]
     fin, fout = spec.get("in"), spec.get("out", 1)
@@ -347,6 +383,10 @@ def build_model(spec, world):
         m = nn.Sequential(*layers)
         if kind == "quant":
             m = Quantised(m)
+    elif kind == "passthrough":
+        m = PassThrough(fout)
+    elif kind == "band":
+        m = BandNet(fin, spec.get("mode", "mean"))
     elif kind == "pf_mlp":
         m = pfn.MultiLayerPerceptron(fin, fout, n_layers=spec.get("n_layers", 2), n_units=spec.get("n_units", 4),
                                      activation=ACTS[spec.get("act", "tanh")]())
